@@ -237,13 +237,22 @@ fn config_merge(sc: &Value) -> Value {
 
 /// texts: [string]; each is parsed with the default configuration; reports whether the syntax tree's text equals the input
 fn parse(sc: &Value) -> Value {
-    use emmylua_parser::{LuaParser, ParserConfig};
+    use emmylua_parser::{LuaLanguageLevel, LuaParser, ParserConfig};
     let mut outs = vec![];
     for t in sc["texts"].as_array().cloned().unwrap_or_default() {
         let Some(text) = t.as_str() else { continue };
-        let tree = LuaParser::parse(text, ParserConfig::default());
-        let back = tree.get_red_root().text().to_string();
-        outs.push(json!({"input": text, "lossless": back == text, "tree_len": back.len(), "input_len": text.len(), "errors": tree.get_errors().len()}));
+        // every text under the default configuration, with doc-comment parsing off, and under two other language levels
+        let configs: Vec<(&str, ParserConfig)> = vec![
+            ("default", ParserConfig::default()),
+            ("doc_off", ParserConfig::new(LuaLanguageLevel::default(), None, Default::default(), Default::default(), false)),
+            ("lua51", ParserConfig::with_level(LuaLanguageLevel::Lua51)),
+            ("luajit_doc_off", ParserConfig::new(LuaLanguageLevel::LuaJIT, None, Default::default(), Default::default(), false)),
+        ];
+        for (name, config) in configs {
+            let tree = LuaParser::parse(text, config);
+            let back = tree.get_red_root().text().to_string();
+            outs.push(json!({"input": text, "config": name, "lossless": back == text, "tree_len": back.len(), "input_len": text.len(), "errors": tree.get_errors().len()}));
+        }
     }
     let bad = outs.iter().any(|o| o["lossless"] == json!(false));
     json!({"results": outs, "violates": bad})
